@@ -407,6 +407,15 @@ def _gen_flip(mm: ast.Module) -> Dict[Tuple[bool, bool, str], str]:
             h = None
             for cand in tr.handlers:
                 names = _handler_classes(cand)
+                if names == ["DirectorySyncError"] and not cas:
+                    # storage_backend.DirectorySyncError (C16): the local write WAS renamed into place, only the directory
+                    # fsync failed.  Not one of the model's failure classes (FEError on an atomic store = the write did
+                    # not happen); accepted only when it is turned into the AMBIGUOUS class, under which commit() keeps
+                    # the metadata file and Transaction.commit keeps every written file (gen_discard_on / gen_tx_on).
+                    if _raise_class(cand.body, "XOther", "_write_hint_at_commit_point") != {True: "XAmbiguous", False: "XAmbiguous"}:
+                        raise Unsupported("_write_hint_at_commit_point: a DirectorySyncError (pointer renamed, directory fsync failed) "
+                                          "is not reported as AmbiguousCommitError")
+                    continue
                 if (err == "FEPrecondition" and "CASConflictError" in names) or any(n in ("Exception", "BaseException") for n in names):
                     h = cand
                     break
